@@ -478,6 +478,15 @@ func (e *udpEngine) reader(idx int, pc *net.UDPConn) {
 			udpDropTrunc.Inc()
 			continue
 		}
+		if raddr.Port() == 0 {
+			// Source port 0 is reserved: no reply can be addressed to it,
+			// and a peer of 127.0.0.255:0 is the address sentinel the
+			// middleware chain takes for a resolver-internal sub-query — a
+			// datagram off the network must never be able to claim it.
+			j.release(udpJobReading)
+			udpDropError.Inc()
+			continue
+		}
 		j.rxLen = n
 		j.readTime = time.Now()
 		j.setRemote(raddr)
